@@ -477,7 +477,7 @@ seeded("c17-siblings-filter-truthy", ["C17", "C18"], [(NM, "return tuple(node fo
 seeded("c17-root-while-truthy", ["C17"], both("        while node.parent is not None:\n            node = node.parent\n", "        while node.parent:\n            node = node.parent\n"), ["T3"])
 seeded("c17-iter-path-while-truthy", ["C17"], both("        while node is not None:\n            yield node\n", "        while node:\n            yield node\n"), ["T3"])
 seeded("c17-render-children-len-of-node", ["C17"], [(RD, "            children = node.children\n            if children:", "            children = node.children\n            if len(node) or children:")], ["T5"])
-seeded("c17-resolver-parent-truthy", ["C17", "C07"], [(RS, "                parent = node.parent\n                if parent is None:\n                    if self.relax:\n                        return None\n",
+seeded("c17-resolver-parent-truthy", ["C17"], [(RS, "                parent = node.parent\n                if parent is None:\n                    if self.relax:\n                        return None\n",
                                                         "                parent = node.parent\n                if not parent:\n                    if self.relax:\n                        return None\n")], ["T3"])
 seeded("c17-search-result-set", ["C17"], [(SE, "    result = tuple(PreOrderIter(node, filter_, stop, maxlevel))\n", "    result = tuple(PreOrderIter(node, filter_, stop, maxlevel))\n    unique = set(result)\n")], ["T4"])
 seeded("c17-exporter-seen-set", ["C17"], [(MX, "            for child in node.children:\n                if filter_(child) and not stop(child):", "            seen = set()\n            for child in node.children:\n                seen.add(child)\n                if filter_(child) and not stop(child):")], ["T4"])
